@@ -36,10 +36,17 @@ ARCH = platform.machine()
 HAVE_SETARCH = shutil.which("setarch") is not None
 
 
-def gen_texts(w, fmt):
+def gen_values(w):
+    if w.random() < 0.25:
+        return gen.gen_renamed_dicts(w)
+    a = gen.gen_container(w, w.choice([1, 2, 2, 3]), "json", w.choice([2, 3, 4]))
+    b = gen.mutate(w, a, intensity=w.choice([1, 2, 3])) if w.random() < 0.85 else gen.gen_container(w, 2)
+    return a, b
+
+
+def gen_texts(w, fmt, values=None):
     if fmt in ("json", "json5", "yaml"):
-        a = gen.gen_container(w, w.choice([1, 2, 2, 3]), "json", w.choice([2, 3, 4]))
-        b = gen.mutate(w, a, intensity=w.choice([1, 2, 3])) if w.random() < 0.85 else gen.gen_container(w, 2)
+        a, b = values if values is not None else gen_values(w)
         ser = {"json": gen.to_json, "json5": gen.to_json5, "yaml": gen.to_yaml}[fmt]
         return ser(w, a), ser(w, b)
     if fmt == "plist":
@@ -91,12 +98,12 @@ class C07:
     LEVEL = "exploration"
     HANG_IS_VIOLATION = False
     TIERS = {
-        "quick": {"runs": 128, "budget_s": 170, "chunk": 1, "run_timeout_s": 300},
+        "quick": {"runs": 96, "budget_s": 170, "chunk": 1, "run_timeout_s": 300},
         "thorough": {"runs": 1800, "budget_s": 1700, "chunk": 2, "run_timeout_s": 300},
     }
     EVAL_COUNTER = "evaluations"
     DETERMINISM_PROBE_RUNS = 1
-    RULE = ("one run = 10 items (two generated documents in one of JSON/JSON5/YAML/plist/XML/HTML/CSV + options drawn "
+    RULE = ("one run = 24 items (two generated documents in one of JSON/JSON5/YAML/plist/XML/HTML/CSV + options drawn "
             "from the CLI surface: dict strategy incl. -k, -l/-ll, -e/-d/full, --format, --html, colour flags, "
             "-j/-jl/-jd, status flags) executed twice each at seeded positions of one in-process history with "
             "interleaved library calls, in 3 child interpreters (hash seeds 0, 1, seeded; ASLR off/on; heap shift); "
@@ -126,10 +133,22 @@ class C07:
         st = Streams(seed)
         w, sc, env, fs = st["workload"], st["schedule"], st["env"], st["faults"]
         items = []
-        for _ in range(10):
+        jvals = []   # (values, opts) of earlier JSON-family items: sources for type-twins
+        for _ in range(24):
             fmt = w.choice(FORMATS)
-            a, b = gen_texts(w, fmt)
-            items.append({"fmt": fmt, "a": a, "b": b, "opts": gen_opts(w)})
+            if fmt in ("json", "json5", "yaml"):
+                if jvals and w.random() < 0.3:
+                    (va, vb), opts = w.choice(jvals)
+                    vals = (gen.type_twin(w, va), gen.type_twin(w, vb))
+                    opts = list(opts) if w.random() < 0.7 else gen_opts(w)
+                else:
+                    vals, opts = gen_values(w), gen_opts(w)
+                    jvals.append((vals, opts))
+                a, b = gen_texts(w, fmt, vals)
+            else:
+                a, b = gen_texts(w, fmt)
+                opts = gen_opts(w)
+            items.append({"fmt": fmt, "a": a, "b": b, "opts": opts})
         lib_docs = [sched.gen_workload(w, families=("json", "json", "xml")) for _ in range(2)]
         hist = [{"kind": "main", "item": i, "clock": sc.choice(["frozen", "1ms", "3s"])} for i in range(len(items))] * 2
         hist = [dict(h) for h in hist]
@@ -142,10 +161,11 @@ class C07:
         soak = None
         if sc.random() < (0.12 if tier == "quick" else 0.2):
             soak = {"n": sc.choice([300, 800, 1200]), "opts": sc.choice([["-c"], ["-c", "-k"], ["-c", "-j"], []])}
-        envs = [{"hashseed": 0, "aslr_off": True, "heap_shift": 0},
-                {"hashseed": 1, "aslr_off": True, "heap_shift": env.choice([0, 1000, 77777])},
+        envs = [{"hashseed": 0, "aslr_off": True, "heap_shift": 0, "order": None},
+                {"hashseed": 1, "aslr_off": True, "heap_shift": env.choice([0, 1000, 77777]),
+                 "order": env.getrandbits(30)},
                 {"hashseed": env.randrange(2, 1 << 30), "aslr_off": env.random() < 0.5,
-                 "heap_shift": env.choice([0, 12345])}]
+                 "heap_shift": env.choice([0, 12345]), "order": env.getrandbits(30)}]
         purity = []
         for _ in range(30):
             seam = fs.choice([None, "clock", "write", "step", "step"])
@@ -176,12 +196,18 @@ class C07:
             si = len(items) - 1
             history = history + [{"kind": "main", "item": si, "clock": "frozen"} for _ in range(case["soak"]["n"])]
             counters["probe.soak_history"] = 1
-        spec = {"items": items, "history": history, "lib_docs": case["lib_docs"]}
-        spec_path = os.path.join(d, "spec.json")
-        with open(spec_path, "w") as f:
-            json.dump(spec, f)
         outs = []
         for ci, e in enumerate(case["envs"]):
+            # every child runs the same calls, but in its own order: what preceded a call differs between children,
+            # so a result that depends on the earlier history of the process shows as a cross-child difference
+            order = list(range(len(history)))
+            if e.get("order") is not None:
+                import random as _random
+                _random.Random(e["order"]).shuffle(order)
+            spec = {"items": items, "history": [dict(history[j], orig=j) for j in order], "lib_docs": case["lib_docs"]}
+            spec_path = os.path.join(d, f"spec{ci}.json")
+            with open(spec_path, "w") as f:
+                json.dump(spec, f)
             out_path = os.path.join(d, f"out{ci}.json")
             cmd = [sys.executable, "-m", "gsim.worker", spec_path, out_path]
             if e.get("aslr_off") and HAVE_SETARCH:
@@ -196,7 +222,11 @@ class C07:
             if p.returncode != 0 or not os.path.exists(out_path):
                 raise RuntimeError(f"C07 child {ci} failed rc={p.returncode}: {p.stderr.decode('utf-8', 'replace')[-1500:]}")
             with open(out_path) as f:
-                outs.append(json.load(f))
+                o = json.load(f)
+            for rec in o["results"]:
+                rec["pos"] = rec["i"]            # position in this child's order
+                rec["i"] = order[rec["i"]]       # index into the canonical history
+            outs.append(o)
         return items, history, outs
 
     @staticmethod
@@ -228,7 +258,7 @@ class C07:
                             bump("probe.lib_call_interleaved")
                         else:
                             continue
-                        by_key.setdefault(key, []).append((ci, rec["i"], self._outcome(rec), rec))
+                        by_key.setdefault(key, []).append((ci, rec["pos"], self._outcome(rec), rec))
                         bump("evaluations")
                 for key in sorted(by_key, key=repr):
                     execs = by_key[key]
